@@ -949,7 +949,13 @@ impl<'t, I: Interner> Unifier<'t, I> {
                 let var_a = EnaVariable::from(var_a);
                 let var_b = EnaVariable::from(var_b);
                 debug!(?var_a, ?var_b);
-                self.table.unify.unify_var_var(var_a, var_b).unwrap();
+                if matches!(variance, Variance::Invariant) {
+                    self.table.unify.unify_var_var(var_a, var_b).unwrap();
+                } else if !self.table.unify.unioned(var_a, var_b) {
+                    // Two unknown lifetimes in a co- or contravariant position only have to
+                    // outlive one another in one direction; unifying them would be too strong.
+                    self.push_lifetime_outlives_goals(variance, a.clone(), b.clone());
+                }
                 Ok(())
             }
 
